@@ -121,9 +121,9 @@ inductive First (α : Type) where
 /-- the Python value returned -/
 inductive PyVal (α : Type) where
   | none                                               -- `None`
-  | falsy                                              -- falsy, not None, not a tuple: `0`, `False`, `""`, `[]`, `b""`, a bare handle of length 0
+  | falsy                                              -- falsy, not None, not a tuple: `0`, `False`, `""`, `[]`, `b""`, a bare handle of length 0 (`ResolveFile.__len__`)
   | truthyNonTuple                                     -- truthy and not a tuple (a bare handle, a str, a list, ...)
-  | tuple (len : Nat) (first : First α) (keep : Bool)  -- a tuple; `first`/`keep` = its first element / truth of its second (looked at only if len = 2)
+  | tuple (len : Nat) (first : First α) (keep : Bool)  -- a tuple (len 0 = the falsy `()`); `first`/`keep` = its first element / truth of its second (looked at only if len = 2)
   deriving DecidableEq, Repr
 
 inductive Behaviour (α : Type) where
@@ -131,13 +131,6 @@ inductive Behaviour (α : Type) where
   | raises          -- any `Exception` other than CloudTemporaryError
   | raisesTemp      -- `CloudTemporaryError`
   deriving DecidableEq, Repr
-
-/-- `if ret:` -/
-def PyVal.truth {α : Type} : PyVal α → Bool
-  | .none => false
-  | .falsy => false
-  | .truthyNonTuple => true
-  | .tuple n _ _ => n != 0
 
 /-- what comes out of `__safe_call_resolver` -/
 inductive Chosen (α : Type) where
@@ -148,24 +141,28 @@ inductive Chosen (α : Type) where
 inductive SafeRes (α : Type) where
   | pair (fh : Chosen α) (keep : Bool)   -- the `(fh, keep)` that `resolve_conflict` unpacks
   | reraised                             -- CloudTemporaryError propagates (entry punted, sync manager backs off, retried later)
-  | asIs                                 -- a falsy non-None value is returned unchanged; `fh, keep = ret` then raises TypeError/ValueError
   deriving DecidableEq, Repr
 
-/-- validation inside the `try` (manager.py:885-894): `none` = "ret set to None" -/
+/-- validation inside the `try` (manager.py:885-894): `none` = "ret is None afterwards".
+```
+if ret is not None:
+    if not isinstance(ret, tuple): ret = None
+    elif len(ret) != 2: ret = None
+    elif not is_file_like(ret[0]): ret = None
+```
+(until commit <SHA_A> the first test was `if ret:`, so falsy non-None values slipped through unvalidated and were
+returned as they were — finding `falsy-answer-never-resolved`, now a `fixed:` entry replayed on every run) -/
 def validate {α : Type} (v : PyVal α) : Option (SafeRes α) :=
-  if v.truth then
-    match v with
-    | .tuple n first keep =>
-      if n != 2 then none
-      else match first with
-        | .handle i => some (.pair (.handle i) keep)
-        | .data d => some (.pair (.data d) keep)
-        | .notFile => none
-    | _ => none                           -- not a tuple
-  else
-    match v with
-    | .none => none
-    | _ => some .asIs                     -- `if ret:` skipped, `ret is None` false: returned as is
+  match v with
+  | .none => none
+  | .falsy => none                        -- not a tuple
+  | .truthyNonTuple => none               -- not a tuple
+  | .tuple n first keep =>
+    if n != 2 then none
+    else match first with
+      | .handle i => some (.pair (.handle i) keep)
+      | .data d => some (.pair (.data d) keep)
+      | .notFile => none
 
 /-- the fallback (manager.py:900-906): "we defer to the remote... since this can prevent loops"
 ```
@@ -295,7 +292,6 @@ def episode {α : Type} [DecidableEq α] (remFirst : Bool) (b : Behaviour α) (s
       let fhs := fileLikes (sideStates remFirst cl cr)
       match (safeCall fhs.1.side fhs.1.otype fhs.2.otype b).1 with
       | .reraised => { st with calls := st.calls + 1 }
-      | .asIs => { st with calls := st.calls + 1 }          -- unpacking raises; entry punted; offered again
       | .pair fh keep =>
         let res := resolveStep st.pair fhs.1.side fhs.1.bytes fhs.2.bytes fh keep
         match res.2 with
